@@ -16,6 +16,10 @@ Local Open Scope N_scope.
 Theorem C17_no_hidden_mutable_globals : forallb global_ok gen_globals = true.
 Proof. exact bridge_globals. Qed.
 Print Assumptions C17_no_hidden_mutable_globals.
+(* ... nor borrowed from libc: no library function calls a libc function that keeps or returns static / process-wide state *)
+Theorem C17_no_libc_static_state : gen_libc_state_refs = [].
+Proof. exact bridge_no_libc_static_state. Qed.
+Print Assumptions C17_no_libc_static_state.
 
 (* footprint: every cell a read-only traversal touches is reachable from its argument *)
 Theorem C17_footprint : forall fuel a w t w', abs fuel a w = Ret t w' ->
